@@ -137,7 +137,8 @@ INVENTORY_EXEMPT = (
 def check_inventory(rep, crate, prop):
     """every implementation of a method of the model traits is in the reference table: an added override (e.g. a
     closed-form shortcut replacing a default method) is an unreviewed model function"""
-    known = {e['path'] for e in load_refs()}
+    norm = lambda q: q[q.index('<impl '):] if '::<impl ' in q else q
+    known = {norm(e['path']) for e in load_refs()}
     n = 0
     for b in crate.body_list:
         tr = b.raw.get('impl_trait') or (b.raw.get('trait') if not b.raw.get('impl') else None)
@@ -149,7 +150,7 @@ def check_inventory(rep, crate, prop):
         if owner != prop:
             continue
         n += 1
-        if b.path in known:
+        if norm(b.path) in known:
             continue
         got, _ = S.summarise(crate, b)
         rep.bad('REF', f'REF-NEW:{b.path}', loc(b.raw), 'implementation of a model-trait method that is not in the reviewed reference table: ' + got[:300],
@@ -799,6 +800,36 @@ def _guard_escapes(b, node, gid):
     return None
 
 
+def _only_reached_from(crate, b, allowed_fns, depth=0):
+    """-> the sorted allowed routines from which alone the non-public function b is called (transitively through other such
+    helpers), or None"""
+    raw = b.raw
+    if depth > 3 or not str(raw.get('vis', '')).startswith('Restricted') or raw.get('impl_trait') or raw.get('kind') not in ('Fn', 'AssocFn'):
+        return None
+    callers = set()
+    for c in crate.body_list:
+        if c is b:
+            continue
+        for n in c.walk():
+            if (n.get('k') in ('Call', 'MethodCall') and n.get('callee') == b.path) or \
+                    (n.get('k') == 'Path' and n.get('defkind') in ('Fn', 'AssocFn') and n.get('def') == b.path):
+                callers.add(c.path)
+    if not callers:
+        return None
+    hosts = set()
+    for cp in callers:
+        short = cp.split('::')[-1]
+        if short in allowed_fns and cp.rsplit('::', 1)[0] == b.path.rsplit('::', 1)[0]:
+            hosts.add(short)
+            continue
+        cb = crate.body(cp)
+        sub = _only_reached_from(crate, cb, allowed_fns, depth + 1) if cb is not None else None
+        if sub is None:
+            return None
+        hosts |= set(sub)
+    return sorted(hosts)
+
+
 def check_append_only(rep, crate, field, file_filter, allowed_fns):
     """who-may-write: after construction the cached vector is only ever extended by push, and only in the extrapolation routines"""
     n = 0
@@ -823,10 +854,14 @@ def check_append_only(rep, crate, field, file_filter, allowed_fns):
             if target is None:
                 continue
             n += 1
-            key = f'CACHE-APPEND:{b.path}:{what}'
             fn_short = b.path.split('::')[-1]
-            if what == 'push' and fn_short in allowed_fns:
-                rep.ok('CACHE-APPEND', key, loc(node), f'{target} is extended by push in {fn_short}', fn=b.path)
+            host = _only_reached_from(crate, b, allowed_fns) if fn_short not in allowed_fns else None
+            # a private helper that only the extrapolation routines call is part of them: keyed by the routine(s), so moving
+            # the push into such a helper (or back) changes neither key nor verdict
+            key = f'CACHE-APPEND:{b.path}:{what}' if host is None else f'CACHE-APPEND:{b.path.rsplit("::", 1)[0]}::{host[0]}:{what}'
+            if what == 'push' and (fn_short in allowed_fns or host is not None):
+                rep.ok('CACHE-APPEND', key, loc(node), f'{target} is extended by push in {fn_short}' +
+                       (f' (private, reached only from {", ".join(host)})' if host else ''), fn=b.path)
             else:
                 rep.bad('CACHE-APPEND', key, loc(node), f'{target} is modified by `{what}` in {fn_short}', f'only push, only in {sorted(allowed_fns)}', fn=b.path,
                         direction='values inside the original prefix can change; answers depend on the query history')
